@@ -990,6 +990,29 @@ def specialise_range_arms(root, ids):
     return map_tree(root, fold)
 
 
+def _matches_literals(n):
+    """`matches!(x, "a" | "b")` — `match x { "a" | "b" => true, _ => false }` with a pure scrutinee and literal alternatives — is
+    `x == "a" || x == "b"`."""
+    if n.get("k") != "match" or n.get("src") not in ("Normal", None) or len(n.get("arms", [])) != 2:
+        return n
+    a0, a1 = n["arms"]
+    if a0.get("guard") or a1.get("guard") or a1["pat"].get("k") != "pwild" or not pure(n["scrut"]):
+        return n
+    b0, b1 = hir.simp(a0["body"]), hir.simp(a1["body"])
+    if not (b0.get("k") == "lit" and b0.get("t") == "bool" and b1.get("k") == "lit" and b1.get("t") == "bool" and b0["v"] != b1["v"]):
+        return n
+    alts = a0["pat"].get("pats") if a0["pat"].get("k") == "por" else [a0["pat"]]
+    if not alts or not all(q.get("k") == "lit" and q.get("t") in ("str", "int", "char") for q in alts):
+        return n
+    out = None
+    for q in alts:
+        t = {"k": "bin", "op": "Eq", "l": copy.deepcopy(n["scrut"]), "r": dict(q), "ln": n.get("ln"), "ty": "bool", "norm": "matches-literals"}
+        out = t if out is None else {"k": "bin", "op": "Or", "l": out, "r": t, "ln": n.get("ln"), "ty": "bool", "norm": "matches-literals"}
+    if not b0["v"]:
+        out = {"k": "un", "op": "Not", "e": out, "ln": n.get("ln"), "ty": "bool", "norm": "matches-literals"}
+    return out
+
+
 def bool_tuple_match(root):
     """`match (c, x) { (false, _) => a, (true, P) => b, (true, _) => d }` (first component a bool tested by literals / `_`, the other
     components pure) is `if c { match x { P => b, _ => d } } else { a }`; a match on a pure scrutinee whose arms are unit variants
@@ -1497,6 +1520,15 @@ def normalise_crate(name, crate):
         for it in crate.get("items", []):
             if it.get("dk") in ("Const", "AssocConst") and it["path"] not in refc and isinstance(it.get("value"), (int, bool, str)):
                 newc[it["path"]] = it["value"]
+    if refc is not None:
+        # a new constant whose initialiser is a plain literal (`const DEFAULT: &str = "default";`) is that literal too
+        for b in bodies:
+            if b.get("kind") in ("Const", "AssocConst") and b["path"] not in refc and b["path"] not in newc:
+                lit = hir.simp(b["hir_raw"])
+                while isinstance(lit, dict) and lit.get("k") == "ref":
+                    lit = hir.simp(lit["e"])
+                if isinstance(lit, dict) and lit.get("k") == "lit" and lit.get("t") in ("str", "int", "bool") and isinstance(lit.get("v"), (str, int, bool)):
+                    newc[b["path"]] = lit["v"]
     crate["folded_consts"] = sorted(newc)
     const_bodies = {b["path"]: b["hir_raw"] for b in bodies if b.get("kind") in ("Const", "AssocConst")}
     for b in bodies:
@@ -1522,6 +1554,7 @@ def normalise_crate(name, crate):
                 b["inlined_from"] = sorted({x["inlined"] for x in all_nodes(h2) if x.get("inlined")} |
                                            {x["inl"] for x in all_nodes(h2) if x.get("inl")})
             h = h2
+        h = map_tree(h, _matches_literals)
         h = bool_tuple_match(h)
         h = fold_constant_ifs(h)
         h = map_tree(h, _or_split)
